@@ -28,7 +28,28 @@ fn decode(hw: &[u16; 60]) -> rda::Message {
     rda::decode_rda_status_message(&mut rda_body(hw).as_slice()).expect("120 bytes decode")
 }
 
+/// Plans 0..=4: arithmetic patterns. Plans 8 + 4k + t (k = 0..12, t = 0..4): every coded field holds
+/// its (k mod n)-th documented code at the same time, and the WHOLE message is then transformed:
+/// t = 0 as is, 1 = bytes of every halfword swapped, 2 = complemented, 3 = rotated left by one bit.
+/// A heuristic that re-interprets a message (byte order, legacy format) keys on such a global
+/// pattern, which no single-field or pairwise sweep produces.
 fn plan(p: u8) -> [u16; 60] {
+    if p >= 8 {
+        let (k, t) = (((p - 8) / 4) as usize, (p - 8) % 4);
+        let mut hw = rda_in_domain();
+        for (_, hwno, table) in coded_tables() {
+            hw[hwno - 1] = table[k % table.len()].0;
+        }
+        for h in hw.iter_mut() {
+            *h = match t {
+                1 => h.swap_bytes(),
+                2 => !*h,
+                3 => h.rotate_left(1),
+                _ => *h,
+            };
+        }
+        return hw;
+    }
     let mut hw = [0u16; 60];
     for (i, h) in hw.iter_mut().enumerate() {
         let a = ((i * 2 * 7 + 13) & 0xFF) as u16;
@@ -308,7 +329,7 @@ fn aborted(_ctx: &Ctx) -> (&'static str, Value, Vec<&'static str>) {
 pub fn run(ctx: &'static Ctx) -> (&'static str, Value, Vec<&'static str>) {
     let thorough = ctx.tier.thorough();
     let mut stats = Stats::new();
-    for p in 0..5 {
+    for p in (0..5u8).chain(8..8 + 4 * 12) {
         check_layout(ctx, p, &mut stats);
         stats.nontrivial(&[b'l', p]);
     }
